@@ -160,11 +160,14 @@ func (omr objMeshReading) toMesh() ObjMesh {
 		SetFloat3Attribute(modeling.PositionAttribute, omr.verts).
 		SetMaterials(omr.meshMats)
 
-	if len(omr.normals) > 0 {
+	// Faces of one group may mix the corner forms v, v/vt, v//vn and v/vt/vn.
+	// An attribute that is not present on every corner cannot be attached
+	// without making the mesh ill-formed (attribute lengths would differ).
+	if len(omr.normals) == len(omr.verts) {
 		mesh = mesh.SetFloat3Attribute(modeling.NormalAttribute, omr.normals)
 	}
 
-	if len(omr.uvs) > 0 {
+	if len(omr.uvs) == len(omr.verts) {
 		mesh = mesh.SetFloat2Attribute(modeling.TexCoordAttribute, omr.uvs)
 	}
 	return ObjMesh{
